@@ -8,6 +8,7 @@ func init() {
 	vfHarnesses["C16_force"] = vfhC16Force
 	vfHarnesses["C16_carry"] = vfhC16Carry
 	vfHarnesses["C16_carry_multi"] = vfhC16CarryMulti
+	vfHarnesses["C20_transform_empties"] = vfhC16CarryMulti
 }
 
 // vfLineF: a LineString of n points with arbitrary ordinates of type ct.
